@@ -218,7 +218,7 @@ def st_list(draw):
                "fill_derivs_ into a pre-filled buffer == prefill + sum of single-map derivatives (1e-12), "
                "__call__ == fill_vals_, directional finite difference of the whole list; non-trivial = at least two "
                "maps read the same raw feature",
-          tolerances={"additivity_rtol": 1e-10, "fd_rtol": 1e-6})
+          tolerances={"additivity": "list == sequential in-place accumulation bitwise; vs separately computed contributions 1e-6 of the summed magnitudes", "fd_rtol": 1e-6})
 def list_additive(case, ctx):
     from ciderpress.dft.transform_data import FeatureList
 
@@ -244,11 +244,18 @@ def list_additive(case, ctx):
     ctx.event("nmaps=%d" % len(maps))
     if shared:
         ctx.nontrivial([[s["code"], sorted(s["idx"].items())] for s in case["maps"]])
-    # judged against the size of the summed terms (contributions of opposite sign may cancel)
-    # (1e-10, not 1e-12: a map with coincident indices, e.g. SLB(i=j), adds two nearly cancelling pieces to one row, so
-    # the magnitude of its own net contribution underestimates the rounding of the accumulation -- thorough tier: 2.4e-12;
-    # an overwritten or dropped contribution is an O(1) relative error)
-    ctx.close((got - want) / (mag + 1e-300), np.zeros_like(got), ("additivity",), rtol=0, atol=1e-10)
+    # (a) the list is the sequential in-place accumulation of its maps into the caller's array: the same floating-point
+    #     operations in the same order, so bit-identical (a map with coincident indices, e.g. SLB(i=j), adds nearly
+    #     cancelling pieces to one row inside its own call; comparing against separately computed contributions then shows
+    #     rounding of the size of those hidden pieces -- thorough tier 2.4e-12, a later quick seed 1.15e-10 of the net
+    #     magnitude -- which no tolerance based on visible magnitudes bounds)
+    seq = pre.copy()
+    for k, m in enumerate(maps):
+        m.fill_deriv_(seq, dfdy[k].copy(), x.copy())
+    ctx.equal_bits(got, seq, ("additivity", "list_vs_sequential_accumulation"))
+    # (b) against the separately computed contributions, at a tolerance that only an overwritten or dropped contribution
+    #     (an O(1) relative error) exceeds
+    ctx.close((got - want) / (mag + 1e-300), np.zeros_like(got), ("additivity",), rtol=0, atol=1e-6)
     y1 = fl(x.T.copy())
     y2 = np.zeros((len(maps), ns))
     fl.fill_vals_(y2, x.copy())
